@@ -5,6 +5,7 @@ import (
 	"go/ast"
 	"go/token"
 	"go/types"
+	"strings"
 	"sort"
 
 	"golang.org/x/tools/go/packages"
@@ -305,7 +306,8 @@ func checkC08(c *Ctx, r *Report) {
 	checkDMRandomize(c, r)
 	checkDMPlacement(c, r)
 	checkDMRegionSwitches(c, r)
-	r.Note("not decided: ECC interleave order for multi-block symbols (loop-carried index arithmetic in ErrorCorrection_EncodeECC200 / DataBlock_getDataBlocks); the finder/clock drawing loop; the traversal loop of Place/readCodewords beyond its shapes and trigger conditions")
+	checkDMBlockInterleave(c, r)
+	r.Note("not decided: the decoder's de-interleave (DataBlock_getDataBlocks, loop-carried offsets with the 144x144 special case); the finder/clock drawing loop; the traversal loop of Place/readCodewords beyond its shapes and trigger conditions")
 }
 
 func checkDMTables(c *Ctx, r *Report) {
@@ -1113,4 +1115,193 @@ func checkDMRegionSwitches(c *Ctx, r *Report) {
 			r.Check(len(res) == 1 && res[0].isInt() && res[0].I == want[n][ai], "T-DMREGIONS", key, c.pos(fd.Pos()), fmt.Sprintf("%d regions: %v, expected %d", n, res, want[n][ai]))
 		}
 	}
+}
+
+// the encoder's multi-block branch: block b is fed exactly codewords[b], codewords[b+n], ... and its check words
+// land at capacity + b, capacity + b + n, ...
+func checkDMBlockInterleave(c *Ctx, r *Report) {
+	r.Rule("S-DMBLOCK", "in ErrorCorrection_EncodeECC200's multi-block branch every block's input to createECCBlock is a buffer created empty inside that block's iteration and extended only by append(buf, codewords[d]) for d = block, block+blockCount, ... < data capacity (so its length is that block's own data length, also for the 144x144 symbol whose last two blocks are one shorter), the check word count is the block's own error length, and check word k of block b is stored at dataCapacity + b + k*blockCount", 3)
+	fd, p := c.funcDeclOf("datamatrix/encoder", "ErrorCorrection_EncodeECC200")
+	key := "datamatrix/encoder.ErrorCorrection_EncodeECC200"
+	if fd == nil {
+		r.AnchorLost("S-DMBLOCK", key, "function not found")
+		return
+	}
+	r.Analysed(key)
+	// the createECCBlock call inside a for loop
+	var blockLoop *ast.ForStmt
+	var call *ast.CallExpr
+	ast.Inspect(fd.Body, func(n ast.Node) bool {
+		if l, ok := n.(*ast.ForStmt); ok {
+			for _, st := range l.Body.List {
+				for _, cl := range findCalls(p, st, func(o types.Object) bool { return isFuncNamed(o, "datamatrix/encoder", "createECCBlock") }) {
+					if _, nested := st.(*ast.ForStmt); !nested {
+						blockLoop, call = l, cl
+					}
+				}
+			}
+		}
+		return true
+	})
+	if blockLoop == nil {
+		r.Fail("S-DMBLOCK", key+"/input", c.pos(fd.Pos()), "violation", "no per-block createECCBlock call inside a block loop")
+		return
+	}
+	lrInit, okInit := blockLoop.Init.(*ast.AssignStmt)
+	if !okInit || len(lrInit.Lhs) != 1 {
+		r.Undecided("S-DMBLOCK", key+"/input", c.pos(blockLoop.Pos()), "block loop header not recognised")
+		return
+	}
+	blockObj := identObj(p, lrInit.Lhs[0])
+	var countObj types.Object
+	if be, ok := ast.Unparen(blockLoop.Cond).(*ast.BinaryExpr); ok && be.Op == token.LSS && identObj(p, be.X) == blockObj {
+		countObj = identObj(p, be.Y)
+	}
+	if countObj == nil {
+		r.Undecided("S-DMBLOCK", key+"/input", c.pos(blockLoop.Pos()), "block loop bound is not `block < blockCount`")
+		return
+	}
+	// ---- the input buffer
+	bad := ""
+	bufObj := identObj(p, call.Args[0])
+	if bufObj == nil {
+		bad = "the data handed to createECCBlock is not a plain buffer variable (a re-sliced shared buffer cannot be shown to have the block's own length)"
+	} else {
+		defined, extended := false, 0
+		for _, st := range blockLoop.Body.List {
+			if as, ok := st.(*ast.AssignStmt); ok && as.Tok == token.DEFINE && len(as.Lhs) == 1 && identObj(p, as.Lhs[0]) == bufObj {
+				if mk, isC := as.Rhs[0].(*ast.CallExpr); isC {
+					if id, isI := mk.Fun.(*ast.Ident); isI && id.Name == "make" && len(mk.Args) >= 2 {
+						if z, isK := constInt(p, mk.Args[1]); isK && z == 0 {
+							defined = true
+						}
+					}
+				}
+			}
+		}
+		if !defined {
+			bad = "the block's input buffer is not created empty (make(..., 0, ...)) inside the block's own iteration: a buffer shared between blocks keeps the previous block's bytes when a block is shorter"
+		}
+		ast.Inspect(blockLoop.Body, func(n ast.Node) bool {
+			as, ok := n.(*ast.AssignStmt)
+			if !ok || bad != "" {
+				return true
+			}
+			for i, l := range as.Lhs {
+				touches := identObj(p, l) == bufObj
+				if ix, isIx := l.(*ast.IndexExpr); isIx && identObj(p, ix.X) == bufObj {
+					touches = true
+				}
+				if !touches || as.Tok == token.DEFINE {
+					continue
+				}
+				ap, isC := as.Rhs[i].(*ast.CallExpr)
+				okAppend := false
+				if isC && isBuiltin(typeutil.Callee(p.TypesInfo, ap), "append") && len(ap.Args) == 2 && identObj(p, ap.Args[0]) == bufObj {
+					if ix, isIx := ap.Args[1].(*ast.IndexExpr); isIx && identObj(p, ix.X) == paramObjs(p, fd)[0] {
+						// inside `for d := block; d < X.GetDataCapacity(); d += blockCount`
+						gi, _ := guardsOf(blockLoop.Body, as)
+						for _, e := range gi.Enclosing {
+							if l, isL := e.Node.(*ast.ForStmt); isL && interleaveHeader(p, l, blockObj, countObj, identObj(p, ix.Index)) {
+								okAppend = true
+							}
+						}
+					}
+				}
+				if okAppend {
+					extended++
+				} else {
+					bad = c.pos(as.Pos()) + ": the block's input buffer is modified otherwise than by append(buf, codewords[d]) over d = block, block+blockCount, ... < data capacity"
+				}
+			}
+			return true
+		})
+		if bad == "" && extended != 1 {
+			bad = "the block's input buffer is never filled from the interleaved data codewords"
+		}
+	}
+	r.Check(bad == "", "S-DMBLOCK", key+"/input", c.pos(call.Pos()), bad)
+	// ---- the check word count
+	okN := false
+	if ix, isIx := ast.Unparen(call.Args[1]).(*ast.IndexExpr); isIx && identObj(p, ix.Index) == blockObj {
+		// errorSizes[i] = symbolInfo.GetErrorLengthForInterleavedBlock(i + 1)
+		arr := identObj(p, ix.X)
+		ast.Inspect(fd.Body, func(n ast.Node) bool {
+			if as, ok := n.(*ast.AssignStmt); ok && len(as.Lhs) == 1 {
+				if lix, isL := as.Lhs[0].(*ast.IndexExpr); isL && identObj(p, lix.X) == arr {
+					if cl, isC := as.Rhs[0].(*ast.CallExpr); isC {
+						if fn, isF := typeutil.Callee(p.TypesInfo, cl).(*types.Func); isF && fn.Name() == "GetErrorLengthForInterleavedBlock" {
+							okN = true
+						}
+					}
+				}
+			}
+			return true
+		})
+	}
+	r.Check(okN, "S-DMBLOCK", key+"/eccount", c.pos(call.Pos()), "the number of check words must be the block's own error length (errorSizes[block] from GetErrorLengthForInterleavedBlock)")
+	// ---- placement of the check words
+	s := c.newSymExec(p)
+	s.pure = func(o types.Object) bool {
+		fn, ok := o.(*types.Func)
+		return ok && strings.HasPrefix(fn.Name(), "Get")
+	}
+	s.block(fd.Body.List)
+	okPlace := false
+	got := ""
+	blockAtom := ""
+	for _, st := range s.stores {
+		if st.Loop != 2 || st.Field != "" {
+			continue
+		}
+		ks := kAtoms(st.Index)
+		got = prettyPoly(st.Index)
+		if len(ks) != 2 {
+			continue
+		}
+		// index = capacity + (block0 + Kb) + Ke*blockCount ; value = ecc[Ke]
+		for _, perm := range [][2]string{{ks[0], ks[1]}, {ks[1], ks[0]}} {
+			kb, ke := polyAtom(perm[0]), polyAtom(perm[1])
+			cnt := s.atomFor(countObj)
+			for _, cl := range s.calls {
+				if fn, isF := cl.Callee.(*types.Func); isF && fn.Name() == "GetDataCapacity" && cl.Recv != nil {
+					capA := polyAtom("call:" + shortObj(cl.Callee) + "(" + cl.Recv.String() + ")")
+					if st.Index.equal(capA.add(kb).add(ke.mul(cnt))) && strings.HasSuffix(st.Val.String(), ","+perm[1]+")") {
+						okPlace = true
+						blockAtom = perm[0]
+					}
+				}
+			}
+		}
+	}
+	_ = blockAtom
+	r.Check(okPlace, "S-DMBLOCK", key+"/placement", c.pos(blockLoop.Pos()), "check word k of block b must be stored at dataCapacity + b + k*blockCount from ecc[k]; found index "+got)
+}
+
+// interleaveHeader: `for d := block; d < X.GetDataCapacity(); d += blockCount` with d the index used.
+func interleaveHeader(p *packages.Package, l *ast.ForStmt, blockObj, countObj, idxObj types.Object) bool {
+	in, ok := l.Init.(*ast.AssignStmt)
+	if !ok || len(in.Lhs) != 1 || len(in.Rhs) != 1 {
+		return false
+	}
+	d := identObj(p, in.Lhs[0])
+	if d == nil || d != idxObj || identObj(p, in.Rhs[0]) != blockObj {
+		return false
+	}
+	be, ok := ast.Unparen(l.Cond).(*ast.BinaryExpr)
+	if !ok || be.Op != token.LSS || identObj(p, be.X) != d {
+		return false
+	}
+	cl, ok := ast.Unparen(be.Y).(*ast.CallExpr)
+	if !ok {
+		return false
+	}
+	if fn, isF := typeutil.Callee(p.TypesInfo, cl).(*types.Func); !isF || fn.Name() != "GetDataCapacity" {
+		return false
+	}
+	post, ok := l.Post.(*ast.AssignStmt)
+	if !ok || post.Tok != token.ADD_ASSIGN || len(post.Lhs) != 1 || identObj(p, post.Lhs[0]) != d || identObj(p, post.Rhs[0]) != countObj {
+		return false
+	}
+	return !assignedIn(p, l.Body, d)
 }
